@@ -3,6 +3,7 @@ package main
 import (
 	"encoding/json"
 	"fmt"
+	"reflect"
 	"time"
 
 	"github.com/asticode/go-astits"
@@ -268,7 +269,7 @@ func randDescriptor(r *rng, kind string, budget int) *astits.Descriptor {
 	case "extensionsa":
 		d.Tag = astits.DescriptorTagExtension
 		sa := &astits.DescriptorExtensionSupplementaryAudio{MixType: r.boolean(), EditorialClassification: uint8(edge(r, 5)), HasLanguageCode: r.boolean()}
-		if sa.HasLanguageCode {
+		if sa.HasLanguageCode || r.boolean() { // a code left behind in a value whose flag is cleared is not part of the value
 			sa.LanguageCode = lang(r)
 		}
 		sa.PrivateData = varBytes(r, budget-5)
@@ -391,6 +392,38 @@ func scramble(b []byte) {
 	}
 }
 
+// scrambleValue inverts every byte of every byte slice reachable from v
+func scrambleValue(v reflect.Value, depth int) {
+	if depth > 12 {
+		return
+	}
+	switch v.Kind() {
+	case reflect.Ptr, reflect.Interface:
+		if !v.IsNil() {
+			scrambleValue(v.Elem(), depth+1)
+		}
+	case reflect.Struct:
+		if v.Type().PkgPath() == "time" {
+			return
+		}
+		for i := 0; i < v.NumField(); i++ {
+			if v.Type().Field(i).PkgPath == "" {
+				scrambleValue(v.Field(i), depth+1)
+			}
+		}
+	case reflect.Slice:
+		if v.Type().Elem().Kind() == reflect.Uint8 {
+			if v.Len() > 0 && v.Index(0).CanSet() {
+				scramble(v.Bytes())
+			}
+			return
+		}
+		for i := 0; i < v.Len(); i++ {
+			scrambleValue(v.Index(i), depth+1)
+		}
+	}
+}
+
 func descVec(rec *recorder, class string, ds []*astits.Descriptor) []byte {
 	v := projDescriptors(ds)
 	var wb []byte
@@ -414,6 +447,20 @@ func descVec(rec *recorder, class string, ds []*astits.Descriptor) []byte {
 			e["got"] = projDescriptors(got)
 		}
 		scramble(wb)
+		// ... and what the caller does to a parsed value is none of the next parse's business: every byte slice of the first result
+		// is overwritten, then the same bytes are parsed again
+		if gerr == nil {
+			scrambleValue(reflect.ValueOf(got), 0)
+			var got2 []*astits.Descriptor
+			var gerr2 error
+			if pn := safeCall(func() { got2, _, gerr2 = astits.VerifParseDescriptors(wb) }); pn != nil {
+				gerr2 = fmt.Errorf("panic %v", pn)
+			}
+			e["got2"] = []M{}
+			if gerr2 == nil {
+				e["got2"] = projDescriptors(got2)
+			}
+		}
 	}
 	rec.ev(e)
 	return wb
